@@ -208,6 +208,40 @@ Proof.
     unfold zlen. rewrite Ef, chunk_const_length. lia.
 Qed.
 
+(* with --pad-mode constant: inside the utterance the chunk is the source, outside it is the pad value *)
+Lemma chunk_const_nth : forall x c sl i, (i < length (chunk_const x c sl))%nat ->
+  nth i (chunk_const x c sl) c
+  = if (0 <=? fst sl + Z.of_nat i) && (fst sl + Z.of_nat i <? zlen x) then nth (Z.to_nat (fst sl + Z.of_nat i)) x c else c.
+Proof.
+  intros x c sl i Hi. rewrite chunk_const_length in Hi. unfold chunk_const. rewrite arange01, map_map.
+  now rewrite nth_map_seq0 by lia.
+Qed.
+
+Theorem chunk_padded_restriction : forall v p wt pad lobe partial retain u chunks ch,
+  chunk_utt v p wt pad lobe partial retain u = Some chunks -> In ch chunks ->
+  let a := fst (c_win ch) in
+  let c := pad_c pad in
+  length (c_feat ch) = Z.to_nat (Z.max (snd (c_win ch) - a) 0)
+  /\ (forall i, (i < length (c_feat ch))%nat ->
+        nth i (c_feat ch) c = if (0 <=? a + Z.of_nat i) && (a + Z.of_nat i <? zlen (u_feat u))
+                              then nth (Z.to_nat (a + Z.of_nat i)) (u_feat u) c else c)
+  /\ match u_ali u, c_ali ch with
+     | Some al, Some cal =>
+         length cal = length (c_feat ch)
+         /\ forall i, (i < length cal)%nat ->
+              nth i cal c = if (0 <=? a + Z.of_nat i) && (a + Z.of_nat i <? zlen al)
+                            then nth (Z.to_nat (a + Z.of_nat i)) al c else c
+     | None, None => True
+     | _, _ => False
+     end.
+Proof.
+  intros v p wt pad lobe partial retain u chunks ch Hc Hin a c.
+  destruct (chunk_utt_chunks _ _ _ _ _ _ _ _ _ _ Hc Hin) as (sws & _ & _ & Ef & Ea & _).
+  rewrite Ef. split; [apply chunk_const_length|]. split; [intros i Hi; now apply chunk_const_nth|].
+  rewrite Ea. destruct (u_ali u) as [al|]; [|exact I].
+  split; [now rewrite !chunk_const_length|]. intros i Hi. now apply chunk_const_nth.
+Qed.
+
 (* K1: as coded, a well-formed utterance yields a chunk whose token lies outside it *)
 Definition k1_only := mkV true false false false false false.
 Theorem dir_k1_refuted :
